@@ -131,15 +131,14 @@ Proof.
   intros V V'.
   assert (L := dn_cal_lex md y m d y' m' d' V V').
   assert (L' := dn_cal_lex md y' m' d' y m d V' V).
+  assert (C : (y < y' \/ y = y' /\ (m < m' \/ m = m' /\ d < d')) \/
+              (y = y' /\ m = m' /\ d = d') \/
+              (y' < y \/ y' = y /\ (m' < m \/ m' = m /\ d' < d))) by lia.
   unfold triple_ltb.
-  destruct (dn_cal md y m d <? dn_cal md y' m' d') eqn:E.
+  destruct C as [C | [(-> & -> & ->) | C]].
+  - specialize (L C). lia.
   - lia.
-  - assert (D : (y, m, d) = (y', m', d') \/ dn_cal md y' m' d' < dn_cal md y m d).
-    { destruct (Z.eq_dec (dn_cal md y m d) (dn_cal md y' m' d')) as [Q | Q].
-      - left; eapply dn_cal_inj; eauto.
-      - right; lia. }
-    destruct D as [D | D]; [injection D as -> -> ->; lia|].
-    assert (~ (y < y' \/ y = y' /\ (m < m' \/ m = m' /\ d < d'))) by lia. lia.
+  - specialize (L' C). lia.
 Qed.
 
 Lemma triple_leb_spec md y m d y' m' d' :
@@ -147,4 +146,418 @@ Lemma triple_leb_spec md y m d y' m' d' :
   triple_leb (y, m, d) (y', m', d') = (dn_cal md y m d <=? dn_cal md y' m' d').
 Proof.
   intros V V'. unfold triple_leb. rewrite (triple_ltb_spec md) by assumption. lia.
+Qed.
+
+(* ---------- calendar <-> ordinal ---------- *)
+Lemma cum_months_spec md y m : 1 <= m <= 12 ->
+  cum_months (year_months md y) (m - 1) = cum md y (m - 1).
+Proof.
+  intros Hm. rewrite year_months_spec. unfold months.
+  cases12 m; destruct md; cbn [cum]; destruct (is_leap y); reflexivity.
+Qed.
+
+Lemma ord_from_cal_eq md y m d :
+  ord_from_cal md y m d =
+  if valid_cal md y m d then Some (y, cum md y (m - 1) + d) else None.
+Proof.
+  unfold ord_from_cal.
+  change (znth (year_months md y) (m - 1)) with (get_days_in_month md m y).
+  destruct (valid_cal md y m d) eqn:V; unfold valid_cal in V.
+  - assert (Hm : 1 <= m <= 12) by lia.
+    rewrite (get_days_in_month_spec md y m Hm), V, (cum_months_spec md y m Hm). reflexivity.
+  - destruct ((1 <=? m) && (m <=? 12)) eqn:Hm.
+    + rewrite (get_days_in_month_spec md y m ltac:(lia)), V. reflexivity.
+    + cbn [andb]. reflexivity.
+Qed.
+
+Lemma ord_from_cal_spec md y m d :
+  (valid_cal md y m d = true ->
+     exists doy, ord_from_cal md y m d = Some (y, doy) /\ valid_ord md y doy = true /\
+                 dn_ord md y doy = dn_cal md y m d) /\
+  (valid_cal md y m d = false -> ord_from_cal md y m d = None).
+Proof.
+  rewrite ord_from_cal_eq. split; intros V; rewrite V; [|reflexivity].
+  exists (cum md y (m - 1) + d). pose proof (cal_range _ _ _ _ V) as (Hm & Hd & Hc & Hn).
+  split; [reflexivity|]. unfold valid_ord, dn_ord, dn_cal. split; lia.
+Qed.
+
+(* prefix sums of a month table, indexed structurally *)
+Fixpoint pre (ms : list Z) (n : nat) : Z :=
+  match n, ms with S n', a :: r => a + pre r n' | _, _ => 0 end.
+
+Lemma walk_spec ms : forall m0 k, 1 <= k ->
+  match walk_months ms m0 k with
+  | Some (m, d) => exists j : nat, (j < length ms)%nat /\ m = m0 + Z.of_nat j /\
+                                   1 <= d <= nth j ms 0 /\ k = pre ms j + d
+  | None => pre ms (length ms) < k
+  end.
+Proof.
+  induction ms as [|a r IH]; intros m0 k Hk; cbn [walk_months].
+  - cbn. lia.
+  - destruct (k <=? a) eqn:E.
+    + exists 0%nat. cbn [length nth pre]. repeat split; lia.
+    + specialize (IH (m0 + 1) (k - a) ltac:(lia)).
+      destruct (walk_months r (m0 + 1) (k - a)) as [[m d]|].
+      * destruct IH as (j & Hj & Hm & Hd & Hp). exists (S j).
+        cbn [length nth pre]. repeat split; lia.
+      * cbn [length pre]. lia.
+Qed.
+
+Lemma months_length md y : length (months md y) = 12%nat.
+Proof. unfold months; destruct md; destruct (is_leap y); reflexivity. Qed.
+
+Lemma pre_cum md y j : (j <= 12)%nat -> pre (months md y) j = cum md y (Z.of_nat j).
+Proof.
+  intros Hj. unfold months.
+  do 13 (destruct j as [|j]; [destruct md; cbn [cum]; destruct (is_leap y); reflexivity|]). lia.
+Qed.
+
+Lemma nth_mlen md y j : nth j (months md y) 0 = mlen md y (Z.of_nat j + 1).
+Proof.
+  unfold mlen. replace (Z.of_nat j + 1 - 1) with (Z.of_nat j) by lia.
+  rewrite Nat2Z.id. reflexivity.
+Qed.
+
+Lemma cal_from_ord_spec md y doy :
+  (valid_ord md y doy = true ->
+     exists m d, cal_from_ord md y doy = Some (y, m, d) /\ valid_cal md y m d = true /\
+                 dn_cal md y m d = dn_ord md y doy) /\
+  (valid_ord md y doy = false -> cal_from_ord md y doy = None).
+Proof.
+  unfold cal_from_ord. rewrite year_months_spec.
+  destruct (doy <? 1) eqn:E1.
+  - split; intros V; [unfold valid_ord in V; lia | reflexivity].
+  - pose proof (walk_spec (months md y) 1 doy ltac:(lia)) as W.
+    rewrite months_length in W.
+    destruct (walk_months (months md y) 1 doy) as [[m d]|].
+    + destruct W as (j & Hj & Hm & Hd & Hp).
+      rewrite pre_cum in Hp by lia. rewrite nth_mlen in Hd.
+      replace (Z.of_nat j) with (m - 1) in Hp by lia.
+      replace (Z.of_nat j + 1) with m in Hd by lia.
+      assert (Hm12 : 1 <= m <= 12) by lia.
+      assert (V : valid_cal md y m d = true) by (unfold valid_cal; lia).
+      pose proof (cal_range _ _ _ _ V) as (_ & _ & Hc & _).
+      split; intros Vo; unfold valid_ord in Vo.
+      * exists m, d. split; [reflexivity|]. split; [exact V|]. unfold dn_cal, dn_ord. lia.
+      * lia.
+    + rewrite (pre_cum md y 12 ltac:(lia)) in W. change (Z.of_nat 12) with 12 in W.
+      rewrite cum_12 in W. split; intros Vo; unfold valid_ord in Vo; [lia | reflexivity].
+Qed.
+
+(* ---------- week years ---------- *)
+Lemma ref_monday_eq md : ref_monday md = dby md 2000 + 2.
+Proof. destruct md; reflexivity. Qed.
+
+Lemma jan_dn md y d : dn_cal md y 1 d = dby md y + (d - 1).
+Proof. unfold dn_cal. change (1 - 1) with 0. rewrite cum_0. lia. Qed.
+
+Lemma dec_dn md y d : dn_cal md (y - 1) 12 d = dby md y - mlen md (y - 1) 12 + (d - 1).
+Proof.
+  unfold dn_cal. pose proof (cum_step md (y - 1) 12 ltac:(lia)) as S.
+  rewrite cum_12 in S. pose proof (dby_succ md (y - 1)) as D.
+  replace (y - 1 + 1) with y in D by lia. lia.
+Qed.
+
+Lemma wys_eq md y : wys md y = dby md y + 3 - (dby md y + 3 - (dby md 2000 + 2)) mod 7.
+Proof. unfold wys, weekday. rewrite ref_monday_eq, jan_dn. lia. Qed.
+
+Lemma triple_eq (a b c a' b' c' : Z) : (a, b, c) = (a', b', c') -> a' = a /\ b' = b /\ c' = c.
+Proof. intros H; repeat split; congruence. Qed.
+
+Lemma week_date_start_full md y sy sm sd :
+  week_date_start md y = (sy, sm, sd) ->
+  valid_cal md sy sm sd = true /\ dn_cal md sy sm sd = wys md y /\ y - 1 <= sy <= y.
+Proof.
+  unfold week_date_start, REF_YEAR, REF_MONTH, REF_DAY, REF_ORD.
+  destruct (y =? 2000) eqn:E0.
+  - intros Heq; apply triple_eq in Heq; destruct Heq as (-> & -> & ->). assert (y = 2000) by lia; subst y.
+    repeat split; try lia; destruct md; reflexivity.
+  - rewrite !range_spec. change (2000 - 1 + 1) with 2000.
+    replace (y - 1 + 1) with y by lia.
+    rewrite year_months_spec.
+    change (znth (months md (y - 1)) 11) with (mlen md (y - 1) 12).
+    pose proof (mlen_bounds md (y - 1) 12 ltac:(lia)) as HB.
+    rewrite wys_eq.
+    destruct (2000 <? y) eqn:E1.
+    + destruct (2000 <=? y - 1) eqn:E2; [|lia].
+      match goal with |- context [?a =? 1] => remember a as dow eqn:Hdow end.
+      destruct (dow =? 1) eqn:E3; [|destruct (4 <? dow) eqn:E4];
+        intros Heq; apply triple_eq in Heq; destruct Heq as (-> & -> & ->);
+        unfold valid_cal; rewrite ?jan_dn, ?dec_dn;
+        pose proof (mlen_bounds md y 1 ltac:(lia)); repeat split; lia.
+    + destruct (y <=? 2000 - 1) eqn:E2; [|lia].
+      match goal with |- context [?a =? 1] => remember a as dow eqn:Hdow end.
+      destruct (dow =? 1) eqn:E3; [|destruct (4 <? dow) eqn:E4];
+        intros Heq; apply triple_eq in Heq; destruct Heq as (-> & -> & ->);
+        unfold valid_cal; rewrite ?jan_dn, ?dec_dn;
+        pose proof (mlen_bounds md y 1 ltac:(lia)); repeat split; lia.
+Qed.
+
+Lemma week_date_start_spec md y sy sm sd :
+  week_date_start md y = (sy, sm, sd) ->
+  valid_cal md sy sm sd = true /\ dn_cal md sy sm sd = wys md y.
+Proof. intros H. destruct (week_date_start_full _ _ _ _ _ H) as (A & B & _). split; assumption. Qed.
+
+Lemma wys_bounds md y : dby md y - 3 <= wys md y <= dby md y + 3.
+Proof. rewrite wys_eq. lia. Qed.
+
+Lemma weeks_in_spec md y :
+  wys md (y + 1) = wys md y + 7 * weeks_in md y /\ 51 <= weeks_in md y <= 53.
+Proof.
+  unfold weeks_in. rewrite !wys_eq, dby_succ.
+  pose proof (ylen_bounds md y) as HL.
+  assert (HM : md = D360 /\ ylen md y = 360 \/ 365 <= ylen md y).
+  { destruct md; cbn [ylen]; try destruct (is_leap y); auto; right; lia. }
+  destruct HM as [[-> HM] | HM].
+  - rewrite HM; cbn [dby]; lia.
+  - generalize (dby md y) (ylen md y) (dby md 2000) HL HM; intros; lia.
+Qed.
+
+Lemma wys_mono md a b : a <= b -> wys md a <= wys md b.
+Proof.
+  intros H. destruct (Z.eq_dec a b) as [-> | N]; [lia|].
+  pose proof (wys_bounds md a). pose proof (wys_bounds md b).
+  pose proof (dby_lt md a b ltac:(lia)). lia.
+Qed.
+
+Lemma sum_ylen_spec md n : forall a, sum_ylen md a n = dby md (a + Z.of_nat n) - dby md a.
+Proof.
+  induction n as [|n IH]; intros a; cbn [sum_ylen].
+  - replace (a + Z.of_nat 0) with a by lia. lia.
+  - rewrite IH, get_days_in_year_spec, Nat2Z.inj_succ.
+    replace (a + Z.succ (Z.of_nat n)) with (a + 1 + Z.of_nat n) by lia.
+    rewrite dby_succ. lia.
+Qed.
+
+Lemma get_weeks_in_year_spec md y :
+  get_weeks_in_year md y = weeks_in md y /\ 51 <= weeks_in md y <= 53.
+Proof.
+  destruct (weeks_in_spec md y) as (HW & HB). split; [|exact HB].
+  unfold get_weeks_in_year, ord_week_date_start.
+  destruct (week_date_start md y) as [[cy cm] cd] eqn:E1.
+  destruct (week_date_start md (y + 1)) as [[cyn cmn] cdn] eqn:E2.
+  destruct (week_date_start_full _ _ _ _ _ E1) as (V1 & D1 & R1).
+  destruct (week_date_start_full _ _ _ _ _ E2) as (V2 & D2 & R2).
+  rewrite !ord_from_cal_eq, V1, V2, sum_ylen_spec.
+  rewrite Z2Nat.id by lia. replace (cy + (cyn - cy)) with cyn by lia.
+  unfold dn_cal in D1, D2. lia.
+Qed.
+
+(* ---------- calendar <-> week ---------- *)
+Lemma week_range md wy w d : valid_week md wy w d = true ->
+  1 <= w <= weeks_in md wy /\ 1 <= d <= 7 /\
+  wys md wy <= dn_week md wy w d < wys md (wy + 1).
+Proof.
+  unfold valid_week, dn_week; intros V. destruct (weeks_in_spec md wy) as (HW & HB). lia.
+Qed.
+
+Lemma dn_week_inj md wy w d wy' w' d' :
+  valid_week md wy w d = true -> valid_week md wy' w' d' = true ->
+  dn_week md wy w d = dn_week md wy' w' d' -> (wy, w, d) = (wy', w', d').
+Proof.
+  intros V V' E. pose proof (week_range _ _ _ _ V) as (Hw & Hd & Hn).
+  pose proof (week_range _ _ _ _ V') as (Hw' & Hd' & Hn').
+  assert (wy = wy').
+  { destruct (Z.lt_trichotomy wy wy') as [L | [L | L]]; [|exact L|].
+    - pose proof (wys_mono md (wy + 1) wy' ltac:(lia)). lia.
+    - pose proof (wys_mono md (wy' + 1) wy ltac:(lia)). lia. }
+  subst wy'. unfold dn_week in E.
+  assert (w = w') by lia. subst w'. assert (d = d') by lia. subst d'. reflexivity.
+Qed.
+
+Lemma week_from_cal_spec md y m d : valid_cal md y m d = true ->
+  exists wy w wd, week_from_cal md y m d = Some (wy, w, wd) /\ valid_week md wy w wd = true /\
+                  dn_week md wy w wd = dn_cal md y m d.
+Proof.
+  intros V. unfold week_from_cal.
+  destruct (week_date_start md (y - 1)) as [[py pm] pd] eqn:E1.
+  destruct (week_date_start md y) as [[ty tm] td] eqn:E2.
+  destruct (week_date_start md (y + 1)) as [[ny nm] nd] eqn:E3.
+  destruct (week_date_start_full _ _ _ _ _ E1) as (V1 & D1 & R1).
+  destruct (week_date_start_full _ _ _ _ _ E2) as (V2 & D2 & R2).
+  destruct (week_date_start_full _ _ _ _ _ E3) as (V3 & D3 & R3).
+  cbv zeta.
+  rewrite !(triple_leb_spec md), !(triple_ltb_spec md) by assumption.
+  rewrite D1, D2, D3.
+  assert (T : forall sy sm sd wy, valid_cal md sy sm sd = true ->
+     dn_cal md sy sm sd = wys md wy -> wy - 1 <= sy <= wy -> y - 1 <= wy <= y + 1 ->
+     wys md wy <= dn_cal md y m d < wys md (wy + 1) ->
+     exists w wd,
+      match ord_from_cal md y m d with
+      | Some (_, o) =>
+          match ord_from_cal md sy sm sd with
+          | Some (_, so) =>
+              match
+                (if sy =? y
+                 then if so <=? o then Some (o - so) else None
+                 else
+                  if sy + 1 =? y
+                  then Some (get_days_in_year md sy - so + o)
+                  else
+                   if sy + 2 =? y
+                   then
+                    Some
+                      (get_days_in_year md sy - so +
+                       get_days_in_year md (sy + 1) + o)
+                   else None)
+              with
+              | Some t => Some (wy, t / 7 + 1, t mod 7 + 1)
+              | None => None
+              end
+          | None => None
+          end
+      | None => None
+      end = Some (wy, w, wd) /\
+    valid_week md wy w wd = true /\ dn_week md wy w wd = dn_cal md y m d).
+  { clear - V. intros sy sm sd wy Vs Ds Rs Rw Hn.
+    rewrite !ord_from_cal_eq, V, Vs, !get_days_in_year_spec.
+    destruct (weeks_in_spec md wy) as (HW & HB).
+    pose proof (cal_range _ _ _ _ V) as (_ & _ & _ & Hy).
+    pose proof (cal_range _ _ _ _ Vs) as (_ & _ & _ & Hs).
+    assert (Ht : exists t, t = dn_cal md y m d - wys md wy /\
+      (if sy =? y
+       then if cum md sy (sm - 1) + sd <=? cum md y (m - 1) + d
+            then Some (cum md y (m - 1) + d - (cum md sy (sm - 1) + sd)) else None
+       else if sy + 1 =? y
+            then Some (ylen md sy - (cum md sy (sm - 1) + sd) + (cum md y (m - 1) + d))
+            else if sy + 2 =? y
+                 then Some (ylen md sy - (cum md sy (sm - 1) + sd) + ylen md (sy + 1) +
+                            (cum md y (m - 1) + d))
+                 else None) = Some t).
+    { unfold dn_cal in *. destruct (sy =? y) eqn:Q1.
+      - assert (sy = y) by lia; subst sy.
+        destruct (cum md y (sm - 1) + sd <=? cum md y (m - 1) + d) eqn:Q; [|lia].
+        eexists; split; [|reflexivity]. lia.
+      - destruct (sy + 1 =? y) eqn:Q2.
+        + assert (y = sy + 1) by lia; subst y. rewrite dby_succ in *.
+          eexists; split; [|reflexivity]. lia.
+        + destruct (sy + 2 =? y) eqn:Q3.
+          * assert (y = sy + 1 + 1) by lia; subst y. rewrite !dby_succ in *.
+            replace (sy + 2) with (sy + 1 + 1) in * by lia.
+            eexists; split; [|reflexivity]. lia.
+          * exfalso. assert (sy = y + 1) by lia. subst sy. lia. }
+    destruct Ht as (t & Et & ->).
+    exists (t / 7 + 1), (t mod 7 + 1). split; [reflexivity|].
+    unfold valid_week, dn_week. split; lia. }
+  destruct ((wys md (y - 1) <=? dn_cal md y m d) && (dn_cal md y m d <? wys md y)) eqn:C1;
+    [|destruct ((wys md y <=? dn_cal md y m d) && (dn_cal md y m d <? wys md (y + 1))) eqn:C2];
+    cbv beta iota.
+  - exists (y - 1). apply T; try assumption; try lia. replace (y - 1 + 1) with y by lia. lia.
+  - exists y. apply T; try assumption; lia.
+  - exists (y + 1). apply T; try assumption; try lia.
+    pose proof (cal_range _ _ _ _ V) as (_ & _ & _ & Hy).
+    pose proof (wys_bounds md (y - 1)). pose proof (wys_bounds md y).
+    pose proof (wys_bounds md (y + 1)).
+    destruct (weeks_in_spec md (y + 1)) as (HW & HB).
+    pose proof (dby_lt md (y - 1) y ltac:(lia)). lia.
+Qed.
+
+(* finish a branch of cal_from_week that ends in cal_from_ord of year Y *)
+Ltac fin Y :=
+    match goal with |- context [cal_from_ord ?md Y ?doy] =>
+      let m' := fresh "m" in let d' := fresh "d" in let Vc := fresh in let Dc := fresh in
+      destruct (proj1 (cal_from_ord_spec md Y doy)) as (m' & d' & -> & Vc & Dc);
+      [unfold valid_ord; lia
+      | exists Y, m', d'; split; [reflexivity|]; split; [exact Vc|]; rewrite Dc; unfold dn_ord; lia]
+    end.
+
+Lemma cal_from_week_spec md wy w wd : valid_week md wy w wd = true ->
+  exists y m d, cal_from_week md wy w wd = Some (y, m, d) /\ valid_cal md y m d = true /\
+                dn_cal md y m d = dn_week md wy w wd.
+Proof.
+  intros V. pose proof (week_range _ _ _ _ V) as (Hw & Hd & Hn).
+  unfold cal_from_week. cbv zeta.
+  destruct (week_date_start md wy) as [[sy sm] sd] eqn:E.
+  destruct (week_date_start_full _ _ _ _ _ E) as (Vs & Ds & Rs).
+  unfold dn_week in *.
+  remember ((w - 1) * 7 + wd - 1) as n eqn:En.
+  replace (wys md wy + 7 * (w - 1) + (wd - 1)) with (wys md wy + n) in * by lia.
+  assert (Hn0 : 0 <= n) by lia. clear En V Hw Hd.
+  destruct (n =? 0) eqn:Q0.
+  { exists sy, sm, sd. repeat split; try assumption. lia. }
+  destruct (n <? 0) eqn:Q1; [lia|].
+  rewrite ord_from_cal_eq, Vs, !get_days_in_year_spec.
+  pose proof (cal_range _ _ _ _ Vs) as (_ & _ & Hc & _).
+  unfold dn_cal in Ds.
+  pose proof (dby_succ md sy) as S1.
+  destruct (n <=? ylen md sy - (cum md sy (sm - 1) + sd)) eqn:Q2.
+  { fin sy. }
+  destruct (sy <? wy) eqn:Q3.
+  - assert (wy = sy + 1) by lia; subst wy.
+    pose proof (dby_succ md (sy + 1)) as S2. pose proof (dby_succ md (sy + 1 + 1)) as S3.
+    pose proof (wys_bounds md (sy + 1 + 1)) as B.
+    pose proof (ylen_bounds md (sy + 1 + 1)).
+    destruct (n - (ylen md sy - (cum md sy (sm - 1) + sd)) <=? ylen md (sy + 1)) eqn:Q4.
+    { fin (sy + 1). }
+    destruct (n - (ylen md sy - (cum md sy (sm - 1) + sd)) - ylen md (sy + 1) <=? ylen md (sy + 1 + 1)) eqn:Q5.
+    { fin (sy + 1 + 1). }
+    exfalso. lia.
+  - assert (wy = sy) by lia; subst wy.
+    pose proof (wys_bounds md (sy + 1)) as B.
+    pose proof (ylen_bounds md (sy + 1)).
+    destruct (n - (ylen md sy - (cum md sy (sm - 1) + sd)) <=? ylen md (sy + 1)) eqn:Q4.
+    { fin (sy + 1). }
+    exfalso. lia.
+Qed.
+
+(* ---------- ordinal <-> week: compositions ---------- *)
+Lemma week_from_ord_spec md y doy : valid_ord md y doy = true ->
+  exists wy w wd, week_from_ord md y doy = Some (wy, w, wd) /\ valid_week md wy w wd = true /\
+                  dn_week md wy w wd = dn_ord md y doy.
+Proof.
+  intros V. unfold week_from_ord.
+  destruct (proj1 (cal_from_ord_spec md y doy) V) as (m & d & -> & Vc & Dc).
+  rewrite <- Dc. apply week_from_cal_spec; exact Vc.
+Qed.
+
+Lemma ord_from_week_spec md wy w wd : valid_week md wy w wd = true ->
+  exists y doy, ord_from_week md wy w wd = Some (y, doy) /\ valid_ord md y doy = true /\
+                dn_ord md y doy = dn_week md wy w wd.
+Proof.
+  intros V. unfold ord_from_week.
+  destruct (cal_from_week_spec md wy w wd V) as (y & m & d & -> & Vc & Dc).
+  destruct (proj1 (ord_from_cal_spec md y m d) Vc) as (doy & E & Vo & Do).
+  exists y, doy. rewrite <- Dc. auto.
+Qed.
+
+(* ---------- the conversions are mutually inverse ---------- *)
+Lemma conversions_mutually_inverse md :
+  (forall y m d, valid_cal md y m d = true ->
+     (exists doy, ord_from_cal md y m d = Some (y, doy) /\ cal_from_ord md y doy = Some (y, m, d)) /\
+     (exists wy w wd, week_from_cal md y m d = Some (wy, w, wd) /\ cal_from_week md wy w wd = Some (y, m, d))) /\
+  (forall y doy, valid_ord md y doy = true ->
+     (exists m d, cal_from_ord md y doy = Some (y, m, d) /\ ord_from_cal md y m d = Some (y, doy)) /\
+     (exists wy w wd, week_from_ord md y doy = Some (wy, w, wd) /\ ord_from_week md wy w wd = Some (y, doy))) /\
+  (forall wy w wd, valid_week md wy w wd = true ->
+     (exists y m d, cal_from_week md wy w wd = Some (y, m, d) /\ week_from_cal md y m d = Some (wy, w, wd)) /\
+     (exists y doy, ord_from_week md wy w wd = Some (y, doy) /\ week_from_ord md y doy = Some (wy, w, wd))).
+Proof.
+  split; [|split].
+  - intros y m d V. split.
+    + destruct (proj1 (ord_from_cal_spec md y m d) V) as (doy & E & Vo & Do).
+      exists doy. split; [exact E|].
+      destruct (proj1 (cal_from_ord_spec md y doy) Vo) as (m' & d' & E' & Vc & Dc).
+      rewrite E'. f_equal. eapply dn_cal_inj; eauto. congruence.
+    + destruct (week_from_cal_spec md y m d V) as (wy & w & wd & E & Vw & Dw).
+      exists wy, w, wd. split; [exact E|].
+      destruct (cal_from_week_spec md wy w wd Vw) as (y' & m' & d' & E' & Vc & Dc).
+      rewrite E'. f_equal. eapply dn_cal_inj; eauto. congruence.
+  - intros y doy V. split.
+    + destruct (proj1 (cal_from_ord_spec md y doy) V) as (m & d & E & Vc & Dc).
+      exists m, d. split; [exact E|].
+      destruct (proj1 (ord_from_cal_spec md y m d) Vc) as (doy' & E' & Vo & Do).
+      rewrite E'. f_equal. eapply dn_ord_inj; eauto. congruence.
+    + destruct (week_from_ord_spec md y doy V) as (wy & w & wd & E & Vw & Dw).
+      exists wy, w, wd. split; [exact E|].
+      destruct (ord_from_week_spec md wy w wd Vw) as (y' & doy' & E' & Vo & Do).
+      rewrite E'. f_equal. eapply dn_ord_inj; eauto. congruence.
+  - intros wy w wd V. split.
+    + destruct (cal_from_week_spec md wy w wd V) as (y & m & d & E & Vc & Dc).
+      exists y, m, d. split; [exact E|].
+      destruct (week_from_cal_spec md y m d Vc) as (wy' & w' & wd' & E' & Vw & Dw).
+      rewrite E'. f_equal. eapply dn_week_inj; eauto. congruence.
+    + destruct (ord_from_week_spec md wy w wd V) as (y & doy & E & Vo & Do).
+      exists y, doy. split; [exact E|].
+      destruct (week_from_ord_spec md y doy Vo) as (wy' & w' & wd' & E' & Vw & Dw).
+      rewrite E'. f_equal. eapply dn_week_inj; eauto. congruence.
 Qed.
